@@ -392,9 +392,12 @@ def check_one_child_run(chk, c, s, ea, mon, sched):
     if exp_err is not None:
         chk.dist("child.invalid.%s" % exp_err)
         children = [n for n in s.notifications if ":execution:child:" in ((n["body"] or {}).get("detail", {}).get("executionArn") or "")]
-        impl = {"status": fv["status"], "error": fv.get("error"), "child_started": bool(children)}
-        if impl != {"status": "FAILED", "error": exp_err, "child_started": False}:
-            chk.report("model-disagrees", case, impl=impl, model={"status": "FAILED", "error": exp_err, "child_started": False},
+        ends = [n["body"]["detail"].get("error") for n in s.notifications if (n["body"] or {}).get("detail", {}).get("executionArn") == ea
+                and n["body"]["detail"].get("status") != "RUNNING"]
+        impl = {"status": fv["status"], "error": fv.get("error"), "child_started": bool(children), "endings": ends}
+        if impl != {"status": "FAILED", "error": exp_err, "child_started": False, "endings": [exp_err]}:
+            # (the refused task fails its execution once, with that error: nothing of the launch goes on after the refusal)
+            chk.report("model-disagrees", case, impl=impl, model={"status": "FAILED", "error": exp_err, "child_started": False, "endings": [exp_err]},
                        law="invalid_combinations_fail_task")
         return
     children = []
